@@ -4,6 +4,9 @@ open Emboss.Fmt
 #print axioms C11_total
 #print axioms C11_total_subtree
 #print axioms C11_tokens_preserved
+#print axioms C11_table_normal
+#print axioms C11_format_factors_partial
+#print axioms C11_format_fixed_point_partial
 #print axioms C11_sanity_agrees
 #print axioms C11_sanity_reports_first_difference
 #print axioms C11_sanity_count_differs
